@@ -188,6 +188,23 @@ func genC03(t *rapid.T) *Scenario {
 		sc.Note = "precompile-payload"
 	case r < 18:
 		code := rapid.SliceOfN(rapid.Byte(), 1, 120).Draw(t, "rawcode")
+		if chance(t, 40, "tailpush") {
+			// code analysis boundary: a taken jump (the jump-destination analysis is lazy)
+			// in code of a chosen length whose LAST byte is a PUSHn with its immediate
+			// cut off by the end of the code
+			n := pickInt(t, "tplen", 8, 16, 24, 32, 40, 64, 7, 9, 15, 17, 33, 63, 65)
+			code = make([]byte, n)
+			for i := range code {
+				code[i] = []byte{JUMPDEST, STOP, JUMPDEST, POP}[uniform(t, 0, 3, "tpfill")]
+			}
+			dest := 4 + uniform(t, 0, 1, "tpdest")
+			code[0], code[1], code[2], code[3] = PUSH1, byte(dest), JUMP, STOP
+			code[dest] = JUMPDEST
+			code[n-1] = byte(PUSH1 + pickInt(t, "tpn", 31, 31, 30, 0, 15, 16, 7, 8))
+			if chance(t, 30, "tp2") {
+				code[n-2] = byte(PUSH1 + pickInt(t, "tpn2", 31, 30, 1))
+			}
+		}
 		sc = &Scenario{Fork: ForkNames[uniform(t, 0, 12, "fork")], Note: "random-bytes"}
 		sc.Accounts = []Account{{Addr: ContractAddrs[0], Nonce: 1, Code: code, Balance: hexU64(100), Storage: hostileStorage(t)}, {Addr: EOAAddr, Balance: hexU64(1 << 40), Nonce: 1}}
 		kinds := []string{"call", "callcode", "delegatecall", "staticcall", "create", "create2"}
